@@ -494,8 +494,8 @@ theorem core_inv (s : State) (now : Nat) (op : List String) (h : Inv s) : ∀ r 
 theorem step_inv (s : State) (op : List String) (h : Inv s) : ∀ o ∈ step s op, Inv o.1 := by
   intro o ho
   simp only [step, List.mem_flatMap, List.mem_map] at ho
-  obtain ⟨st, hst, r, hr, rfl⟩ := ho
-  exact inv_of_fields _ _ (core_inv st.1 _ _ (timer_inv s _ h st hst) r hr) rfl rfl rfl rfl rfl
+  obtain ⟨st, hst, r, hr, r2, hr2, rfl⟩ := ho
+  exact inv_of_fields _ _ (timer_inv r.1 _ (core_inv st.1 _ _ (timer_inv s _ h st hst) r hr) r2 hr2) rfl rfl rfl rfl rfl
 
 inductive Reach : State → Prop
   | init : Reach init
@@ -505,6 +505,31 @@ theorem reach_inv (s : State) (h : Reach s) : Inv s := by
   induction h with
   | init => exact init_inv
   | step s op o _ ho ih => exact step_inv s op ih o ho
+
+end Core
+end Model
+
+namespace Model
+namespace Core
+
+theorem getDialer_setDialer (s : State) (d : Nat) (f : DialerSt → DialerSt) (hf : ∀ y, (f y).d = y.d) (e : Nat) :
+    getDialer (setDialer s d f) e = (getDialer s e).map (fun y => if y.d = d then f y else y) := by
+  unfold getDialer setDialer
+  simp only [List.find?_map]
+  have : ((fun x => decide (x.d = e)) ∘ fun x => if x.d = d then f x else x) = (fun x => decide (x.d = e)) := by
+    funext y
+    simp only [Function.comp]
+    split
+    · rw [hf]
+    · rfl
+  rw [this]
+
+theorem getDialer_d (s : State) (d : Nat) (x : DialerSt) (h : getDialer s d = some x) : x.d = d := by
+  unfold getDialer at h
+  simpa using List.find?_some h
+
+theorem getDialer_of_fields (s s' : State) (h : s'.dialers = s.dialers) (d : Nat) : getDialer s' d = getDialer s d := by
+  simp [getDialer, h]
 
 end Core
 end Model
